@@ -285,7 +285,10 @@ func (e *Exec) checkGauges() {
 		e.failD("gauges-zero-but-dirty", map[string]string{"symptom": "gauges-zero-but-dirty", "diff": d},
 			"CurDirtyOps/Bytes/Segments are all zero after %d batches, but the lower level does not hold them all: %s", n, d)
 	}
-	if e.store != nil && simrt.Chance(0.15, "gauge-reopen") {
+	// (only when the content match is unambiguous: with equal-content models the
+	// lower level may really be at an older prefix, which is the known
+	// structural-batch case of KF1 rather than anything new)
+	if e.store != nil && Advance(e.lb, e.hist.Match(content)) == n && simrt.Chance(0.15, "gauge-reopen") {
 		e.drained = true
 		e.reopen(Op{})
 		e.probe("gauges-zero-reopen")
